@@ -85,7 +85,7 @@ Promote(a, b) ==
 ArrayOps == {"anew", "anewdata", "alen", "agetitem", "agetslice", "asetitem", "asetslice", "adelitem", "adelslice",
              "aappend", "aextend", "ainsert", "apop", "areverse", "acount", "atolist", "aiter", "aequals", "acopy",
              "asetdtype", "abyteswap", "atobytes", "atofile", "atrailing", "adata", "aop", "aiop", "acmp", "abitop",
-             "aunary", "aopa", "aextendarr", "afromarray", "aitemsize", "rawcall", "ascaled"}
+             "aunary", "aopa", "aextendarr", "afromarray", "aitemsize", "rawcall", "ascaled", "aastype", "afromfile"}
 
 ArrayStep(objs, opts, call) ==
   LET op == call.op
@@ -125,6 +125,29 @@ ArrayStep(objs, opts, call) ==
          ELSE Ok(<<VNew("BitArray", FoldLeft(LAMBDA acc, i : acc \o bitsOf(i), <<>>, [i \in 1..m |-> i]))>>
                    \o [i \in 1..m |-> dec[i].vals[1]],
                  [i \in 1..(m + 1) |-> ""], NoUpd)
+    [] op = "aastype" ->
+         \* a.astype(dtype): a new Array holding the same item *values* encoded in the new dtype (trailing bits are not
+         \* items).  Modelled where the values keep their kind: integer -> integer, float-valued -> float-valued.
+         LET dn == call.sa[1]  dl == call.ia[1]
+             c1 == Canon(a.dn)  c2 == Canon(dn)
+             floaty(c) == c \in FloatNames \cup BFloatNames \cup AllMiniNames
+             r == EncItems(dn, dl, ItemsOf(a), mx) IN
+         IF ~DtypeOKForArray(dn, dl) THEN Raises({"ValueError"})
+         ELSE IF ~((c1 \in IntNames /\ c2 \in IntNames) \/ (floaty(c1) /\ floaty(c2))) THEN Unconstrained
+         ELSE IF \E i \in 1..n : LET v == ItemVal(a, i - 1) IN v[1] = 3 /\ IsNaN64(FloatBits(v)) THEN Unconstrained
+         ELSE IF ~r.ok THEN Raises({"ValueError", "TypeError"})
+         ELSE OkArr(dn, dl, r.bits)
+    [] op = "afromfile" ->
+         \* a.fromfile(f, n): appends whole items read from the file - all of them, or at most n; asking for more than
+         \* there are appends what there is and then raises EOFError (as array.array.fromfile does)
+         LET src == XV(objs, call.xs[1])
+             avail == Len(src) \div w
+             take == IF IsNone(i1) THEN avail ELSE MinI(MaxI(i1, 0), avail)
+             new == ARec(a.dn, a.dl, a.v \o Sub(src, 0, take * w)) IN
+         IF Len(Trailing(a)) # 0 THEN Raises({"ValueError"})
+         ELSE IF ~IsNone(i1) /\ i1 < 0 THEN Unconstrained
+         ELSE IF ~IsNone(i1) /\ avail < i1 THEN [Raises({"EOFError"}) EXCEPT !.alt = One(t, {new})]
+         ELSE OkNone(One(t, new))
     [] op = "alen" -> OkV(VSmall(n))
     [] op = "aitemsize" -> OkV(VSmall(w))
     [] op = "agetitem" -> IF ListIdxOK(n, i1) THEN OkV(ItemVal(a, ListNorm(n, i1))) ELSE Raises({"IndexError"})
